@@ -24,8 +24,8 @@ type filterVal struct {
 	loose bool
 }
 
-const plainAlpha = "az0/.*+?~^[]-\\!"
-const quotedAlpha = "az0/.*+?~^[]-!: \té"
+const plainAlpha = "az0/.*+?~^[]-\\!%"
+const quotedAlpha = "az0/.*+?~^[]-!: \té%"
 
 func lintPattern(r *hx.Rng, style int) string {
 	n := 1 + r.Intn(8)
@@ -80,6 +80,13 @@ func lintCheck(r *hx.Rng, n int) (fails []failure, colCases []string, count int)
 			scalar := func() (string, bool, string) {
 				style := r.Intn(3)
 				p := lintPattern(r, style)
+				if r.Chance(1, 12) {
+					// patterns whose diagnostic names a per cent sign (a verb, if a message were ever used as a format)
+					p = r.Pick([]string{"v[z-%]*", "a[%-!]", "x%d+?", "[b-%s]", "%v**", "r%!"})
+					if style == 0 {
+						style = 1
+					}
+				}
 				switch style {
 				case 0:
 					return p, false, p
